@@ -79,15 +79,25 @@ def run(ctx):
             "consumers of the previous generation keep running (and committing) into the new generation")
     ojp = prog.method(gci, "on_join_prepare")
     sdc = ctx.func(GROUP + ".shutdown_consumers")
-    rets = [x for x in walk_body_shallow(ojp.body) if isinstance(x, ast.Return)]
-    r.check(ojp.cls is gci and rets and all(isinstance(x.value, ast.Call) and prog.resolve_call(ojp, x.value) is sdc
-                                            for x in rets), "%s#resolves-to-graceful-shutdown" % ojp.qname,
+    cojp = ctx.cfg(ojp)
+    rets = [n for n in cojp.nodes if n.kind == "stmt" and isinstance(n.stmt, ast.Return)]
+
+    def _is_sdc(n):
+        og = deferred_origins(cojp, n.id, n.stmt.value) if n.stmt.value is not None else None
+        return bool(og) and all(isinstance(e, ast.Call) and prog.resolve_call(ojp, e) is sdc for e in og)
+    r.check(ojp.cls is gci and rets and all(_is_sdc(n) for n in rets), "%s#resolves-to-graceful-shutdown" % ojp.qname,
             "ConsumerGroup.on_join_prepare does not return the graceful shutdown of all consumers", where(ojp, ojp.node))
     cs = ctx.cfg(sdc)
     swap = [n for n in cs.nodes if node_assign_value(n, "consumers") is not None]
     loopvars = {unparse(n.stmt.target) for n in cs.nodes if n.kind == "for"}
     sh = [n for n in cs.nodes if any(call_name(x) == "shutdown" and call_recv(x) in loopvars for x in n.calls())]
-    wait = [n for n in cs.nodes if n.suspends and any(isinstance(x, ast.Call) and call_name(x) == "DeferredList" for x in n.walk())]
+    wait = []
+    for n in cs.nodes:
+        if n.suspends:
+            for y in [x for x in n.walk() if isinstance(x, ast.Yield) and x.value is not None]:
+                og = deferred_origins(cs, n.id, y.value) or []
+                if any(isinstance(e, ast.Call) and call_name(e) == "DeferredList" for e in og):
+                    wait.append(n)
     r.check(bool(swap) and bool(sh) and bool(wait) and cs.dominates([swap[0].id], sh[0].id) and wait[0].id in cs.reach([sh[0].id]),
             "%s#swap-shutdown-wait" % sdc.qname, "graceful shutdown does not empty the table, shut every consumer down and "
             "wait for all of them", where(sdc, sdc.node))
@@ -124,7 +134,8 @@ def run(ctx):
         for x in n.calls():
             if call_name(x) == "stop" and call_recv(x) in {unparse(y.target) for y in ast.walk(stc.node) if isinstance(y, ast.For)}:
                 v = call_recv(x)
-                deps = sorted({norm(t.stmt.test) for t, lab in cstc.control_deps_transitive(n.id) if t.kind == "test"} - {"self.consumers"})
+                deps = sorted({norm(t.stmt.test) for t, lab in cstc.control_deps_transitive(n.id) if t.kind == "test" and not (
+                    chains_in(t.stmt.test) <= {"self", "self.consumers"})})
                 r.check(deps in ([], ["%s._start_d" % v], ["%s._start_d is not None" % v]), "%s#stops-every-started-consumer" % stc.qname,
                         "a consumer is stopped only under %s; every consumer whose start Deferred exists must be stopped" % deps, where(stc, x),
                         "a consumer whose start Deferred already fired with an error (rejected commit) keeps running after eviction: it "
